@@ -110,7 +110,22 @@ def run(index, rep, tier):
                         if i < len(c.args) and not any(isinstance(a, ast.Starred) for a in c.args):
                             v = c.args[i]
                 ok = v is not None and norm(v) in (rng_var(f), "self.rng", "self._rng")
-                if v is None and has_star_kwargs(c):
+                own_kwargs = any(k.arg is None and isinstance(k.value, ast.Name) and k.value.id == f.kwarg for k in c.keywords) if f.kwarg else False
+                if v is None:
+                    # rng placed into a dictionary that is then unpacked into the call: D.setdefault("rng", rng) / D["rng"] = rng before the call
+                    for k in c.keywords:
+                        if k.arg is None and isinstance(k.value, ast.Name):
+                            dn = k.value.id
+                            cfg_ = cfg_of(f)
+                            cn_ = node_of_ast(cfg_, c)
+                            def puts(x, dn=dn):
+                                for cc in node_calls(x):
+                                    if isinstance(cc.func, ast.Attribute) and cc.func.attr == "setdefault" and norm(cc.func.value) == dn and len(cc.args) == 2 and const_value(cc.args[0]) == "rng" and norm(cc.args[1]) == rng_var(f):
+                                        return True
+                                return x.kind == "stmt" and isinstance(x.ast, ast.Assign) and norm(x.ast.targets[0]) in ("%s['rng']" % dn, '%s["rng"]' % dn) and norm(x.ast.value) == rng_var(f)
+                            if cn_ is not None and cfg_.dominated_by(cn_, puts, follow_exc=False):
+                                ok = True
+                if v is None and own_kwargs:
                     # **kwargs forwards rng only if it is still in kwargs (not popped)
                     popped = any(isinstance(x.func, ast.Attribute) and norm(x.func.value) == "kwargs" and x.func.attr == "pop" and x.args and const_value(x.args[0]) == "rng" for x in calls_in(f.node))
                     ok = not popped
@@ -146,6 +161,54 @@ def run(index, rep, tier):
         if nset == 0:
             rep.ob("R18.2", "src/dendropy/model", "no set-typed locals in the simulators", True)
 
+    with rep.section("R18.2 sets of taxa from the data model"):
+        # attributes that hold dict-of-set values anywhere in the data model (TaxonNamespaceMapping.reverse): iterating one of
+        # their values in a simulator visits taxa in address order
+        dos = {}
+        for f_ in index.functions.values():
+            if not f_.module.name.startswith("dendropy.datamodel"):
+                continue
+            for a in walk_no_nested(f_.node):
+                if isinstance(a, ast.Assign) and isinstance(a.targets[0], ast.Subscript) and isinstance(a.targets[0].value, ast.Attribute) and norm(a.targets[0].value.value) == "self":
+                    v = a.value
+                    if isinstance(v, (ast.Set, ast.SetComp)) or (isinstance(v, ast.Call) and isinstance(v.func, ast.Name) and v.func.id in ("set", "frozenset")):
+                        dos[a.targets[0].value.attr] = f_
+        rep.note("dict-of-set attributes in the data model: %s" % sorted(dos))
+        nfor = 0
+        for f in fns:
+            holders = {}
+            for a in walk_no_nested(f.node):
+                if isinstance(a, ast.Assign) and isinstance(a.targets[0], ast.Name) and isinstance(a.value, ast.Attribute) and a.value.attr in dos:
+                    holders[a.targets[0].id] = a.value.attr
+            setvals = {}
+            for a in walk_no_nested(f.node):
+                if isinstance(a, ast.Assign) and isinstance(a.targets[0], ast.Name) and isinstance(a.value, ast.Subscript):
+                    b = a.value.value
+                    if (isinstance(b, ast.Name) and b.id in holders) or (isinstance(b, ast.Attribute) and b.attr in dos):
+                        setvals[a.targets[0].id] = holders.get(b.id) if isinstance(b, ast.Name) else b.attr
+            for lp in ast.walk(f.node):
+                its = [lp.iter] if isinstance(lp, ast.For) else ([g.iter for g in lp.generators] if isinstance(lp, (ast.ListComp, ast.GeneratorExp, ast.SetComp, ast.DictComp)) else [])
+                for it in its:
+                    attr = None
+                    if isinstance(it, ast.Name) and it.id in setvals:
+                        # closest preceding binding of the name (assignment or loop target) decides what is iterated here
+                        binds = []
+                        for b in ast.walk(f.node):
+                            if isinstance(b, ast.Assign) and any(isinstance(t, ast.Name) and t.id == it.id for t in b.targets) and b.lineno <= it.lineno:
+                                binds.append((b.lineno, b))
+                            elif isinstance(b, ast.For) and any(isinstance(t, ast.Name) and t.id == it.id for t in ast.walk(b.target)) and b.lineno < it.lineno:
+                                binds.append((b.lineno, b))
+                        last = max(binds, key=lambda x: x[0])[1] if binds else None
+                        if isinstance(last, ast.Assign) and isinstance(last.value, ast.Subscript):
+                            attr = setvals[it.id]
+                    elif isinstance(it, ast.Subscript) and ((isinstance(it.value, ast.Name) and it.value.id in holders) or (isinstance(it.value, ast.Attribute) and it.value.attr in dos)):
+                        attr = holders.get(it.value.id) if isinstance(it.value, ast.Name) else it.value.attr
+                    if attr is None:
+                        continue
+                    nfor += 1
+                    rep.check(False, "R18.2", f.qualname, "iteration over a set of taxa taken from `.%s`: %s" % (attr, norm(it)[:50]), fn_where(f, it), "",
+                              "%s iterates over `%s`, a value of the dict-of-sets `.%s` (filled in %s): Taxon objects hash by address, so the order in which the gene nodes are created - and with it which gene label ends up on which tip for a given generator state - differs from one process to the next: two runs from equal generator states do not return identical trees" % (f.qualname, norm(it)[:60], attr, dos[attr].qualname))
+        rep.ob("R18.2", "src/dendropy/model", "dict-of-set attributes of the data model %s: %d unordered iterations over their values in the simulators" % (sorted(dos), nfor), nfor == 0)
     with rep.section("R18.2 module state"):
         module_state_rule(index, rep, "R18.2", SIM_MODULES)
     with rep.section("R18.3"):
